@@ -325,6 +325,27 @@ func (l *Locks) transfer(f *ssa.Function, in ssa.Instruction, st LockState, repo
 			}
 			return st
 		}
+		if prm, isP := cc.Value.(*ssa.Parameter); isP && !cc.IsInvoke() && contribute != nil {
+			// a callback parameter being called: the literals handed in for it run here
+			for _, cs := range StaticCallSites(f) {
+				idx := -1
+				for i, q := range f.Params {
+					if q == prm {
+						idx = i
+					}
+				}
+				if idx < 0 || idx >= len(cs.Common().Args) {
+					continue
+				}
+				if mc, isMC := cs.Common().Args[idx].(*ssa.MakeClosure); isMC {
+					if cu := CallbackOf(mc); cu != nil && cu.Callee == f {
+						if lit, ok := mc.Fn.(*ssa.Function); ok {
+							contribute(lit, st)
+						}
+					}
+				}
+			}
+		}
 		if cal := Callee(cc); cal != nil {
 			cal = Unwrap(cal)
 			if l.p.isModuleFunc(cal) && cal.Blocks != nil {
@@ -370,7 +391,7 @@ func (l *Locks) transfer(f *ssa.Function, in ssa.Instruction, st LockState, repo
 			// a literal that is only ever called directly right here gets
 			// the state of its call sites (handled at the Call); any other
 			// use means it may run anywhere: nothing held.
-			if !onlyCalledDirectly(x) {
+			if !onlyCalledDirectly(x) && CallbackOf(x) == nil {
 				contribute(fn, LockState{})
 			}
 		}
